@@ -619,6 +619,8 @@ type replica struct {
 	attempts      int
 	attemptedTime time.Duration
 	flag          uint8
+	// rearmed counts how many times a NotLeader hint gave the exhausted replica one more chance.
+	rearmed int
 }
 
 func (r *replica) getEpoch() uint32 {
@@ -633,12 +635,14 @@ func (r *replica) isExhausted(maxAttempt int, maxAttemptTime time.Duration) bool
 	return r.attempts >= maxAttempt || (maxAttemptTime > 0 && r.attemptedTime >= maxAttemptTime)
 }
 
-func (r *replica) onUpdateLeader() {
-	if r.isExhausted(maxReplicaAttempt, maxReplicaAttemptTime) {
-		// Give the replica one more chance and because each follower is tried only once,
-		// it won't result in infinite retry.
+func (r *replica) onUpdateLeader(maxRearm int) {
+	if r.isExhausted(maxReplicaAttempt, maxReplicaAttemptTime) && r.rearmed < maxRearm {
+		// Give the replica one more chance. Every other replica may redirect to it, so the number
+		// of extra chances is bounded by their number: two peers that keep naming each other as
+		// the leader must not result in infinite retry without backoff.
 		r.attempts = maxReplicaAttempt - 1
 		r.attemptedTime = 0
+		r.rearmed++
 	}
 	// The replica is confirmed to be the leader by a NotLeader hint, so it is no longer
 	// suspected of having lost leadership.
@@ -813,7 +817,7 @@ func (s *baseReplicaSelector) updateLeader(leader *metapb.Peer) int {
 			if replica.store.getLivenessState() != reachable {
 				return -1
 			}
-			replica.onUpdateLeader()
+			replica.onUpdateLeader(len(s.replicas) - 1)
 			// Update the workTiKVIdx so that following requests can be sent to the leader immediately.
 			if !s.region.switchWorkLeaderToPeer(leader) {
 				panic("the store must exist")
